@@ -136,6 +136,9 @@ def to_mat(v, kind=None):
                 raise InterpRaise("NotImplementedError", "cannot build a matrix from a list of non-scalars")
         k = kind or kind_of(*items)
         return MatVal(len(v), 1, [[x.s()] for x in items], "DM" if k == "PY" else k)
+    if type(v).__name__ == "Stub":
+        # a value of a library object the analysis does not model: no verdict, never "the program raises"
+        raise Unsupported("value of an unmodelled library object (%s) reaches a CasADi operation" % getattr(v, "_name", "?"))
     raise InterpRaise("NotImplementedError", "cannot convert %s to a CasADi matrix" % type(v).__name__)
 
 
